@@ -30,8 +30,22 @@ func ialias3(mode int, x, y *numct.Int) (out, xx, yy *numct.Int) {
 		return new(numct.Int), x, x
 	case 4:
 		return x, x, x
+	case 5: // a receiver that held another value before
+		return numct.NewIntFromBig(dirtyValue, dirtyValue.BitLen()), x, y
 	}
 	return new(numct.Int), x, y
+}
+
+// dirtyValue is what a reused receiver holds before the operation (mode 5).
+var dirtyValue, _ = new(big.Int).SetString("-5a5a5a5a5a5a5a5a5a5a5a5a5a5a5a5a5a5a5a5a5a5a5a5a5a5a5a5a5a5a5a5a5a5a5a5a5a5a5a5a5a5a5a5a5a5a5a5a5a5a", 16)
+
+// noNegZero: an operand whose magnitude truncates to zero is given as zero (a "negative
+// zero" cannot be built through the constructors otherwise; it is probed by int.mulsign).
+func noNegZero(capBits int, v *big.Int) *big.Int {
+	if intIn(capBits, v).Sign() == 0 {
+		return new(big.Int)
+	}
+	return v
 }
 
 func sgnTrunc(l int, x *big.Int) *big.Int { return intIn(l, x) }
@@ -63,12 +77,13 @@ func genIntBin(withCap bool, rl func(x, y *big.Int) int) func(r *vh.Rng, g *genC
 		}
 		ax, ay := g.capFor(r, x), g.capFor(r, y)
 		mode := 0
-		if r.Intn(3) == 0 {
-			mode = 1 + r.Intn(4)
+		if r.Intn(2) == 0 {
+			mode = 1 + r.Intn(5)
 		}
-		if mode >= 3 {
+		if mode == 3 || mode == 4 {
 			y, ay = x, ax
 		}
+		x, y = noNegZero(ax, x), noNegZero(ay, y)
 		args := []*big.Int{x, zi(ax), y, zi(ay)}
 		if withCap {
 			args = append(args, zi(g.opCap(r, rl(intIn(ax, x), intIn(ay, y)))))
@@ -101,7 +116,8 @@ func intBinImpl(f func(out, x, y *numct.Int, c int)) func(c *tcase) (string, str
 func init() {
 	genIUn := func(r *vh.Rng, g *genCtx) *tcase {
 		x := g.sval(r)
-		return &tcase{args: []*big.Int{x, zi(g.capFor(r, x))}, mode: r.Intn(2)}
+		ax := g.capFor(r, x)
+		return &tcase{args: []*big.Int{noNegZero(ax, x), zi(ax)}, mode: r.Intn(2)}
 	}
 	register(&opDef{name: "int.set", weight: 4, gen: genIUn,
 		impl: func(c *tcase) (string, string) {
@@ -114,14 +130,22 @@ func init() {
 			return okz(n.Big()), ""
 		},
 		orac: func(c *tcase) string { return okz(intIn(ai(c, 1), c.args[0])) }})
-	register(&opDef{name: "int.add", weight: 12,
+	reusedKey := func(name string) func(c *tcase) string {
+		return func(c *tcase) string {
+			if c.mode == 2 || c.mode == 5 {
+				return "int-add-reused-receiver"
+			}
+			return "arith-" + name
+		}
+	}
+	register(&opDef{name: "int.add", weight: 12, key: reusedKey("int.add"),
 		gen:  genIntBin(true, func(x, y *big.Int) int { return new(big.Int).Add(x, y).BitLen() }),
 		impl: intBinImpl(func(o, x, y *numct.Int, c int) { o.AddCap(x, y, c) }),
 		orac: func(c *tcase) string {
 			ax, ay := ai(c, 1), ai(c, 3)
 			return okz(intAddCap(intIn(ax, c.args[0]), intIn(ay, c.args[2]), ax, ay, ai(c, 4)))
 		}})
-	register(&opDef{name: "int.sub", weight: 12,
+	register(&opDef{name: "int.sub", weight: 12, key: reusedKey("int.sub"),
 		gen:  genIntBin(true, func(x, y *big.Int) int { return new(big.Int).Sub(x, y).BitLen() }),
 		impl: intBinImpl(func(o, x, y *numct.Int, c int) { o.SubCap(x, y, c) }),
 		orac: func(c *tcase) string {
@@ -135,6 +159,36 @@ func init() {
 			ax, ay := ai(c, 1), ai(c, 3)
 			p := new(big.Int).Mul(intIn(ax, c.args[0]), intIn(ay, c.args[2]))
 			return okz(intIn(dflt(ai(c, 4), ax+ay), p))
+		}})
+	// sign and comparison of a product (a zero product of a negative factor must not be "negative")
+	register(&opDef{name: "int.mulsign", weight: 4,
+		gen: func(r *vh.Rng, g *genCtx) *tcase {
+			x, y := g.sval(r), g.sval(r)
+			if r.Intn(2) == 0 {
+				y = new(big.Int)
+			}
+			if r.Intn(4) == 0 {
+				x, y = y, x
+			}
+			ax, ay := g.capOK(r, x), g.capOK(r, y)
+			return &tcase{args: []*big.Int{x, zi(ax), y, zi(ay)}}
+		},
+		key: func(c *tcase) string {
+			if c.args[0].Sign() == 0 || c.args[2].Sign() == 0 {
+				return "int-negative-zero"
+			}
+			return "arith-int.mulsign"
+		},
+		impl: func(c *tcase) (string, string) {
+			x, y := mkInt(c.args[0], ai(c, 1)), mkInt(c.args[2], ai(c, 3))
+			var p numct.Int
+			p.Mul(x, y)
+			lt, eq, gt := p.Compare(numct.IntZero())
+			return okz(zb(p.IsNegative() == ct.True), zb(lt == ct.True), zb(eq == ct.True), zb(gt == ct.True)), ""
+		},
+		orac: func(c *tcase) string {
+			k := new(big.Int).Mul(c.args[0], c.args[2]).Sign()
+			return okz(zb(k < 0), zb(k < 0), zb(k == 0), zb(k > 0))
 		}})
 	register(&opDef{name: "int.neg", weight: 4, gen: genIUn,
 		impl: func(c *tcase) (string, string) {
@@ -185,7 +239,7 @@ func init() {
 			}
 			ax, ay = g.capFor(r, x), g.capFor(r, y)
 		}
-		return &tcase{args: []*big.Int{x, zi(ax), y, zi(ay)}, mode: r.Intn(2)}
+		return &tcase{args: []*big.Int{noNegZero(ax, x), zi(ax), noNegZero(ay, y), zi(ay)}, mode: r.Intn(2)}
 	}
 	divKey := func(name string) func(c *tcase) string {
 		return func(c *tcase) string {
@@ -255,7 +309,8 @@ func init() {
 		case 2:
 			y = new(big.Int).Neg(x)
 		}
-		return &tcase{args: []*big.Int{x, zi(g.capFor(r, x)), y, zi(g.capFor(r, y))}}
+		ax, ay := g.capFor(r, x), g.capFor(r, y)
+		return &tcase{args: []*big.Int{noNegZero(ax, x), zi(ax), noNegZero(ay, y), zi(ay)}}
 	}
 	register(&opDef{name: "int.gcd", weight: 5, gen: genIPair,
 		impl: intBinImpl(func(o, x, y *numct.Int, _ int) { o.GCD(x, y) }),
@@ -295,7 +350,8 @@ func init() {
 			case 1:
 				x.Neg(x)
 			}
-			return &tcase{args: []*big.Int{x, zi(g.capFor(r, x))}}
+			ax := g.capFor(r, x)
+			return &tcase{args: []*big.Int{noNegZero(ax, x), zi(ax)}}
 		},
 		impl: func(c *tcase) (string, string) {
 			x := mkInt(c.args[0], ai(c, 1))
@@ -349,7 +405,7 @@ func init() {
 			if !left {
 				rl = maxi(0, intIn(ax, x).BitLen()-s)
 			}
-			return &tcase{args: []*big.Int{x, zi(ax), zi(s), zi(g.opCap(r, rl))}, mode: r.Intn(2)}
+			return &tcase{args: []*big.Int{noNegZero(ax, x), zi(ax), zi(s), zi(g.opCap(r, rl))}, mode: r.Intn(2)}
 		}
 	}
 	ishiftImpl := func(f func(o, x *numct.Int, s uint, c int)) func(c *tcase) (string, string) {
@@ -392,7 +448,7 @@ func init() {
 		gen: func(r *vh.Rng, g *genCtx) *tcase {
 			x := g.sval(r)
 			ax := g.capFor(r, x)
-			return &tcase{args: []*big.Int{x, zi(ax), zi(g.opCap(r, intIn(ax, x).BitLen()))}}
+			return &tcase{args: []*big.Int{noNegZero(ax, x), zi(ax), zi(g.opCap(r, intIn(ax, x).BitLen()))}}
 		},
 		impl: func(c *tcase) (string, string) {
 			x := mkInt(c.args[0], ai(c, 1))
@@ -406,7 +462,7 @@ func init() {
 	register(&opDef{name: "int.bits", weight: 4, gen: genIUn,
 		impl: func(c *tcase) (string, string) {
 			x := mkInt(c.args[0], ai(c, 1))
-			return okz(zi(x.TrueLen()), zb(x.IsNegative() == ct.True && x.Big().Sign() < 0), zb(x.IsOdd() == ct.True && x.IsEven() == ct.False),
+			return okz(zi(x.TrueLen()), zb(x.IsNegative() == ct.True), zb(x.IsOdd() == ct.True && x.IsEven() == ct.False),
 				zb(x.IsZero() == ct.True && x.IsNonZero() == ct.False), zb(x.IsOne() == ct.True), zb(x.IsUnit() == ct.True)), ""
 		},
 		orac: func(c *tcase) string {
@@ -512,7 +568,7 @@ func init() {
 		gen: genIntBin(true, func(x, y *big.Int) int { return maxi(x.BitLen(), y.BitLen()) }),
 		impl: func(c *tcase) (string, string) {
 			x, y := mkInt(c.args[0], ai(c, 1)), mkInt(c.args[2], ai(c, 3))
-			if c.mode >= 3 {
+			if c.mode == 3 || c.mode == 4 {
 				y = x
 			}
 			cp := ai(c, 4)
